@@ -169,11 +169,12 @@ def file_case(enc):
     from mc import core
     from textx import metamodel_for_language
 
+    sides()  # keeps "the first meta-model of the process is built with non-default options" true in whichever order the units run
     fn = os.path.join(core.rundir(), "c24-%d-%s.tx" % (os.getpid(), enc))
     with open(fn, "w", encoding=enc) as f:
         f.write("A: 'caf\u00e9 \u00fc' x=INT;")
     try:
-        gm = metamodel_for_language("textx").grammar_model_from_file(fn, encoding=enc)
+        gm = sides()[1].grammar_model_from_file(fn, encoding=enc)
         lit = gm.rules[0].body.sequences[0].repeatable_exprs[0].expr.simple_match.match
         return lit == "caf\u00e9 \u00fc", {"file_encoding": enc, "literal_in_grammar_model": lit}
     except Exception as e:
